@@ -27,6 +27,9 @@ pub struct Case {
     /// lexer-only build with a user-supplied rule_ids_map in which names may share an id
     #[serde(default)]
     pub custom_ids: Option<Vec<(String, u32)>>,
+    /// builder settings of the generated-code builds: (visibility, edition, recoverer, serialisation)
+    #[serde(default)]
+    pub settings: Option<(Option<String>, Option<u32>, Option<String>, Option<String>)>,
 }
 
 pub fn full_digest(kind: YKind, text: &str) -> Result<String, String> {
@@ -121,7 +124,34 @@ impl Prop for C15 {
             lexer = lexer_for(&ids.iter().map(|(n, _)| n.clone()).collect::<Vec<_>>());
             custom_ids = Some(ids);
             generated_code = true;
+        } else if ch.chance(1, 60) {
+            // ... or a lexer from the lexer generators (start states, targets, flags, escapes), its
+            // named rules mapped onto few ids
+            use crate::genr::lexspec::{RenderOpts, gen_al, render};
+            let al = gen_al(&mut ch, 6);
+            let o = RenderOpts::generate(&mut ch, al.rules.len(), true);
+            lexer = render(&al, &o).0;
+            let mut ids: Vec<(String, u32)> = vec![];
+            for r in &al.rules {
+                if let Some(n) = &r.name {
+                    if !ids.iter().any(|(m, _)| m == n) {
+                        ids.push((n.clone(), ch.pick(3) as u32));
+                    }
+                }
+            }
+            custom_ids = Some(ids);
+            generated_code = true;
         }
+        let settings = if generated_code && ch.chance(1, 2) {
+            Some((
+                ch.choose(&[None, Some("Public"), Some("PublicCrate"), Some("PublicIn:crate::a")]).map(|s| s.to_string()),
+                *ch.choose(&[None, Some(2015u32), Some(2018), Some(2021)]),
+                ch.choose(&[None, Some("None"), Some("CPCTPlus")]).map(|s| s.to_string()),
+                ch.choose(&[None, Some("Fixed"), Some("Variable")]).map(|s| s.to_string()),
+            ))
+        } else {
+            None
+        };
         serde_json::to_value(Case {
             kind: c.kind,
             text,
@@ -130,11 +160,12 @@ impl Prop for C15 {
             generated_code,
             implicit_tokens: c.ag.implicit_tokens.len(),
             custom_ids,
+            settings,
         })
         .unwrap()
     }
     fn rule(&self) -> String {
-        "Grammars as C10, 1/4 of them from the LR(1)-not-LALR(1) stratum alone (all kinds; Eco with 1-3 %implicit_tokens and %avoid_insert sets whose maps are randomly seeded). Oracle: (a) the grammar + state graph + table are built 5 times in-process (fresh hash seeds per HashMap) and every build must give the same digest of all queries (state items with lookaheads per state number, edges, actions, gotos, conflicts as a sorted set); (b) for 1/25 of the cases 3 fresh processes must report the same digest; (c) for 1/40 of the non-Eco cases (and for 1/60 of all cases the lexer alone with a user-supplied rule_ids_map of 3-10 identifier-like names onto ids 0..2, so names share ids) the compile-time builders are run in 3 separate processes on the same paths (output wiped in between) and the generated parser and lexer modules must be byte-identical after masking the build-time comment. (Thread part: see C13's batch.) Evaluation = one grammar. Non-trivial: >=2 implicit tokens, or >=8 states, or conflicts; distinct by hash(text).".into()
+        "Grammars as C10, 1/4 of them from the LR(1)-not-LALR(1) stratum alone (all kinds; Eco with 1-3 %implicit_tokens and %avoid_insert sets whose maps are randomly seeded). Oracle: (a) the grammar + state graph + table are built 5 times in-process (fresh hash seeds per HashMap) and every build must give the same digest of all queries (state items with lookaheads per state number, edges, actions, gotos, conflicts as a sorted set); (b) for 1/25 of the cases 3 fresh processes must report the same digest; (c) for 1/40 of the non-Eco cases (and for 1/60 of all cases the lexer alone with a user-supplied rule_ids_map of 3-10 identifier-like names onto ids 0..2, so names share ids; for another 1/60 a lexer from the lexer generators of C09/C11 - start states, targets, flags, escapes - with its named rules mapped onto ids 0..2; half of these builds with non-default visibility / edition / recoverer / serialisation format) the compile-time builders are run in 3 separate processes on the same paths (output wiped in between) and the generated parser and lexer modules must be byte-identical after masking the build-time comment. (Thread part: see C13's batch.) Evaluation = one grammar. Non-trivial: >=2 implicit tokens, or >=8 states, or conflicts; distinct by hash(text).".into()
     }
     fn assumptions(&self) -> Vec<String> {
         vec![
@@ -143,7 +174,7 @@ impl Prop for C15 {
         ]
     }
     fn required_classes(&self, _tier: Tier) -> Vec<&'static str> {
-        vec!["implicit-tokens>=2", "cross-process", "generated-code", "generated-code:lexer-with-user-ids", "kind:Eco", "with-conflicts"]
+        vec!["implicit-tokens>=2", "cross-process", "generated-code", "generated-code:lexer-with-user-ids", "generated-code:non-default-settings", "kind:Eco", "with-conflicts"]
     }
     fn evaluate(&self, case: &Value) -> Outcome {
         let case: Case = serde_json::from_value(case.clone()).unwrap();
@@ -204,7 +235,15 @@ impl Prop for C15 {
             let lp = dir.join("l.l");
             std::fs::write(&gp, &case.text).unwrap();
             std::fs::write(&lp, &case.lexer).unwrap();
+            let (vis, edition, recoverer, serialisation) = case.settings.clone().unwrap_or_default();
+            if case.settings.is_some() {
+                o.class("generated-code:non-default-settings");
+            }
             let spec = CtSpec {
+                visibility: vis,
+                edition,
+                recoverer,
+                serialisation,
                 grammar_path: gp.to_string_lossy().to_string(),
                 lexer_path: lp.to_string_lossy().to_string(),
                 parser_out: dir.join("g.y.rs").to_string_lossy().to_string(),
